@@ -21,6 +21,9 @@ var noPanicAllow = map[string]string{
 	"fmt.Sprintf":                          "formats any operands; operands are basic values, strings, errors",
 	"fmt.Sprint":                           "formats any operands",
 	"errors.New":                           "allocates an error",
+	"context.Background":                   "returns the empty context",
+	"context.TODO":                         "returns the empty context",
+	"log/slog.Default":                     "returns the default logger",
 	"log/slog.Debug":                       "logging; malformed key/value lists are reported as !BADKEY, not by panicking",
 	"log/slog.Info":                        "logging",
 	"log/slog.Warn":                        "logging",
@@ -778,6 +781,9 @@ func (b *boundsRun) run() {
 			return k
 		}
 		eachInstr(fn, func(ins ssa.Instruction) {
+			if blockDead(ins.Block()) {
+				return // under a branch on a constant condition taken the impossible way: never executed
+			}
 			switch x := ins.(type) {
 			case *ssa.IndexAddr:
 				b.checkIndex(fn, x, x.X, x.Index, mk)
